@@ -206,6 +206,23 @@ theorem checkpoint_unsynced_tail_witness :
       rw [ht] at hme
       exact absurd (hme k) (by decide +kernel)
 
+/-- **A put on an existing `emb:` key is not atomic** (finding
+    `tensor_store.slab_router.put_durable/embedding_record_replayed_without_its_metadata_record`):
+    `put_durable` logs `EmbeddingSet` then `MetadataSet`; a log that ends between the two makes
+    recovery return the OLD body with the NEW embedding — the value of no prefix of the writes.
+    (This is the entity-index / embedding-slab overlay the `md` theorems above do not cover.) -/
+theorem torn_put_embedding_witness :
+    let k := [101, 109, 98, 58, 97]
+    let v1 : Val := ⟨[1], some (List.replicate 1536 1)⟩
+    let v2 : Val := ⟨[2], some (List.replicate 1536 2)⟩
+    let recs := (runOps Store.empty [Op.put k v1, Op.put k v2]).1
+    recs.length = 4 ∧
+    ∃ r, recover (fun _ => 0) toyDec none (logBytes (fun _ => 0) toyEnc (recs.take 3)) = .ok r ∧
+      get r k = some ⟨[1], some (List.replicate 1536 2)⟩ := by
+  refine ⟨by decide +kernel, ?_⟩
+  apply exists_ok_of_get
+  decide +kernel
+
 /-! ### non-vacuity -/
 
 /-- the codec assumptions are satisfiable -/
